@@ -489,7 +489,9 @@ class GriffeLoader:
         seen = seen or set()
         seen.add(obj.path)
 
-        for member in obj.members.values():
+        # Loading a package below expands its wildcards, which can add members to this very object:
+        # iterate on a copy (new aliases are handled by the next iteration of `resolve_aliases`).
+        for member in list(obj.members.values()):
             # Handle aliases.
             if member.is_alias:
                 if member.wildcard or member.resolved:  # type: ignore[union-attr]
